@@ -738,4 +738,34 @@ def disposeAllSeq (sh : MShared) : MShared :=
 def mFinal (pre : Nat) (pcs : List MPc) (s : Schedule) : MShared :=
   disposeAllSeq (run mProg (s ++ rounds pcs.length (3 * pcs.length)) (mInit pre pcs)).sh
 
+/-! ## Operations on a component that is being / has been closed
+
+The pattern behind "later operations fail cleanly": a cleanup handler releases a table (a Go map)
+that other methods of the component keep using — `SessionManager.closedTunnels` with
+`MarkTunnelClosed` / `IsTunnelClosed` (manager_ops.go), the in-memory storage's `data` with its
+writers.  A lookup in a nil map is harmless, an assignment panics.  Threads: closers (dispose
+latch, then the cleanup), writers (one assignment under the table's mutex), readers.
+`nilOnClose = true`: the cleanup sets the table to nil and the writers do not re-create it. -/
+
+structure KShared where
+  closed : Bool
+  tableSet : Bool         -- the map is non-nil
+  writes : Nat
+  panics : Nat
+  deriving DecidableEq, Repr
+
+inductive KPc | close | write | read | done
+  deriving DecidableEq, Repr
+
+def kStep (nilOnClose : Bool) (_tid : Nat) (sh : KShared) (l : KPc) : KShared × KPc :=
+  match l with
+  | .close => (if sh.closed then sh else { sh with closed := true, tableSet := sh.tableSet && !nilOnClose }, .done)
+  | .write => (if sh.tableSet then { sh with writes := sh.writes + 1 } else { sh with panics := sh.panics + 1 }, .done)
+  | .read => (sh, .done)
+  | .done => (sh, .done)
+
+def kProg (nilOnClose : Bool) : Prog KShared KPc := ⟨kStep nilOnClose⟩
+
+def kInit (pcs : List KPc) : Cfg KShared KPc := ⟨⟨false, true, 0, 0⟩, pcs⟩
+
 end Tunnox.C16
